@@ -506,7 +506,9 @@ def _choose_one_hash(hash_dict):
     elif "SHA-512" in hash_dict:
         return {"SHA-512": hash_dict["SHA-512"]}
     else:
-        k = next(iter(hash_dict), None)
+        # (the first in key order, so that the choice doesn't depend on the
+        # order the dictionary happens to be in)
+        k = min(hash_dict, default=None)
         if k is not None:
             return {k: hash_dict[k]}
 
